@@ -25,7 +25,7 @@ from .. import core, qgen, semrun
 PID = "C05"
 PROP_FILE = "Properties/C05.v"
 BACKENDS = ["atlas", "cms_aod", "cms_miniaod"]
-ALLOW = ["first", "aggregate", "range", "selectmany_seq_column", "int_true_division", "selectmany_inside", "shared_shapes", "index"]
+ALLOW = ["first", "aggregate", "range", "selectmany_seq_column", "int_true_division", "selectmany_inside", "shared_shapes", "index", "flatseq"]
 KNOWN_KEY = "c05:terminal-over-sequence-built-in-outer-loop"
 
 TRUSTED = [
